@@ -280,6 +280,8 @@ impl<T> RcBox<T> {
     /// Callers must ensure this `RcBox` is not dead.
     #[inline]
     pub(crate) unsafe fn links(&self) -> &RefCell<Links<T>> {
+        #[cfg(cactusref_verif)]
+        crate::verif::ev(crate::verif::Event::TouchLinks(self as *const Self as usize));
         let links = &self.links;
         // SAFETY: because callers have ensured the `RcBox` is not dead, `links`
         // has not yet been deallocated and the `MaybeUninit` is inhabited.
@@ -433,6 +435,8 @@ impl<T> Rc<T> {
         if Rc::strong_count(&this) == 1 {
             unsafe {
                 let val = ptr::read(&*this); // copy the contained object
+                #[cfg(cactusref_verif)]
+                crate::verif::ev(crate::verif::Event::MoveOutValue(this.ptr.as_ptr() as usize));
 
                 // Indicate to Weaks that they can't be promoted by decrementing
                 // the strong count, and then remove the implicit "strong weak"
@@ -895,6 +899,8 @@ impl<T: Clone> Rc<T> {
             unsafe {
                 let data: &mut MaybeUninit<T> = mem::transmute(Rc::get_mut_unchecked(&mut rc));
                 data.as_mut_ptr().copy_from_nonoverlapping(&**this, 1);
+                #[cfg(cactusref_verif)]
+                crate::verif::ev(crate::verif::Event::MoveOutValue(this.ptr.as_ptr() as usize));
 
                 this.inner().dec_strong();
                 // Remove implicit strong-weak ref (no need to craft a fake
@@ -1605,6 +1611,8 @@ impl<T> Weak<T> {
             // We are careful to *not* create a reference covering the "data" field, as
             // the field may be mutated concurrently (for example, if the last `Rc`
             // is dropped, the data field will be dropped in-place).
+            #[cfg(cactusref_verif)]
+            crate::verif::ev(crate::verif::Event::TouchCounts(self.ptr.as_ptr() as usize));
             Some(unsafe {
                 let ptr = self.ptr.as_ptr();
                 WeakInner {
@@ -1846,11 +1854,15 @@ pub(crate) trait RcInnerPtr {
 impl<T> RcInnerPtr for RcBox<T> {
     #[inline(always)]
     fn weak_ref(&self) -> &Cell<usize> {
+        #[cfg(cactusref_verif)]
+        crate::verif::ev(crate::verif::Event::TouchCounts(self as *const Self as usize));
         &self.weak
     }
 
     #[inline(always)]
     fn strong_ref(&self) -> &Cell<usize> {
+        #[cfg(cactusref_verif)]
+        crate::verif::ev(crate::verif::Event::TouchCounts(self as *const Self as usize));
         &self.strong
     }
 }
